@@ -433,6 +433,10 @@ func c16Pairs(c *Ctx, pr *PropertyRun, prop string, keep func(what string) bool)
 			eu = hasUse(calleeUses(c, enc, 2), "(time.Time).AppendFormat")
 		}
 		du := hasUse(calleeUses(c, dec, 2), pa.decCall)
+		if du == nil && pa.decCall == "net/url.Parse" {
+			// (*url.URL).UnmarshalBinary is url.Parse into the receiver
+			du = hasUse(calleeUses(c, dec, 2), "(*net/url.URL).UnmarshalBinary")
+		}
 		detail := ""
 		if pa.encCall == "fmt.Sprintf" && pa.decCall == "strconv.Unquote" {
 			// Go quoting: %q and strconv.Quote (any text), %+q and
@@ -446,9 +450,15 @@ func c16Pairs(c *Ctx, pr *PropertyRun, prop string, keep func(what string) bool)
 			} else if q := hasUse(calleeUses(c, enc, 2), "strconv.Quote"); q != nil {
 				kind, eu = "%q", q
 				detail = "strconv.Quote"
+			} else if q := hasUse(calleeUses(c, enc, 2), "strconv.AppendQuote"); q != nil {
+				kind, eu = "%q", q
+				detail = "strconv.AppendQuote"
 			} else if q := hasUse(calleeUses(c, enc, 2), "strconv.QuoteToASCII"); q != nil {
 				kind, eu = "%+q", q
 				detail = "strconv.QuoteToASCII"
+			} else if q := hasUse(calleeUses(c, enc, 2), "strconv.AppendQuoteToASCII"); q != nil {
+				kind, eu = "%+q", q
+				detail = "strconv.AppendQuoteToASCII"
 			}
 			if kind == "" {
 				eu = nil
@@ -520,7 +530,7 @@ func c16Pairs(c *Ctx, pr *PropertyRun, prop string, keep func(what string) bool)
 		// no way on from a non-nil error of that call (a fallback that takes
 		// the text as it is accepts texts outside the grammar)
 		if ok && du != nil {
-			if call, isCall := du.site.(*ssa.Call); isCall && errToleratedAnywhere(call) {
+			if call, isCall := du.site.(*ssa.Call); isCall && errSwallowed(call) {
 				ok = false
 				detail += "; the decoder goes on when " + pa.decCall + " reports an error"
 			}
